@@ -520,6 +520,107 @@ theorem add_refines {ft : FTask} {t t' : Task} {m : PMsg} (hinv : Inv ft t) (hdo
           simp only [FTask.add, hat, h1, if_false, hrev, bind, Except.bind, hleaf]
           simpa using hup
 
+/-! ## The parser's own exceptions come at the same message -/
+
+/-- if the trie's path update fails with anything but `underMessage`, the failure is that of `_start` / `_end` on the very action
+the code fetches from its map -/
+theorem addAt_error (op : Op) (c0 : List Level) (e : Err) (he : e ≠ .underMessage) : ∀ (path : List Nat) (pre : Level)
+    (on : Option Node) (ft : FTask), InvSub ft pre on →
+    Node.addAt c0 pre path op (on.getD emptyAct) = .error e →
+    op.apply ((ft.get (pre ++ path)).getD emptyAct) = .error e := by
+  intro path
+  induction path with
+  | nil =>
+    intro pre on ft hinv h
+    simp only [Node.addAt] at h
+    cases ha : op.apply (on.getD emptyAct) with
+    | error e' =>
+      simp only [ha, bind, Except.bind] at h
+      cases h
+      simp only [List.append_nil, hinv.here, ha]
+    | ok n1 => simp [ha, bind, Except.bind, pure, Except.pure] at h
+  | cons k rest ih =>
+    intro pre on ft hinv h
+    cases hn : on.getD emptyAct with
+    | msg x => rw [hn, Node.addAt_msg] at h; cases h; exact absurd rfl he
+    | act s e' ch =>
+      rw [hn] at h
+      simp only [Node.addAt] at h
+      cases hrec : Node.addAt c0 (pre ++ [k]) rest op ((ch.get? k).getD emptyAct) with
+      | ok r => simp [hrec, bind, Except.bind, pure, Except.pure] at h
+      | error e2 =>
+        simp only [hrec, bind, Except.bind] at h
+        cases h
+        have hlk : ∀ j p, on.bind (Node.lookup (j :: p)) = (ch.get? j).bind (Node.lookup p) := by
+          intro j p
+          rw [← lookup_getD on (j :: p) (by simp), hn]; rfl
+        have hkid : (ch.get? k).filter Node.isAct = ch.get? k := by
+          cases hg : ch.get? k with
+          | none => rfl
+          | some x =>
+            cases x with
+            | msg y =>
+              rw [hg] at hrec
+              simp only [Option.getD_some, Node.addAt_msg] at hrec
+              cases hrec; exact absurd rfl he
+            | act _ _ _ => simp [Node.isAct]
+        have hinv' : InvSub ft (pre ++ [k]) (ch.get? k) := by
+          constructor
+          · have := hinv.below [k] (by simp)
+            rw [this, hlk]
+            cases hg : ch.get? k with
+            | none => simp
+            | some x => rw [hg] at hkid; simpa [Node.lookup] using hkid
+          · intro p hp
+            have := hinv.below (k :: p) (by simp)
+            rw [List.append_assoc, List.singleton_append, this, hlk]
+        have := ih (pre ++ [k]) (ch.get? k) ft hinv' hrec
+        simpa using this
+
+/-- **`InvalidStartMessage`, `WrongActionType`, `InvalidStatus`, a missing status, an empty level: where the trie model reports
+one of them, the code-shaped algorithm reports the same one at the same message.** -/
+theorem add_error_agrees {ft : FTask} {t : Task} {m : PMsg} {e : Err} (hinv : Inv ft t) (h : t.add m = .error e)
+    (he : e ≠ .underMessage) : ft.add m = .error e := by
+  cases hat : m.atype with
+  | some ty =>
+    cases hrev : m.level.reverse with
+    | nil =>
+      simp only [Task.add, hat, hrev] at h
+      simp only [FTask.add, hat, hrev]
+      cases h; rfl
+    | cons k revPath =>
+      rw [Task.add_action t m ty k revPath hat hrev] at h
+      rw [FTask.add_action ft m ty k revPath hat hrev]
+      cases hop : statusOp m with
+      | error e' =>
+        simp only [hop, bind, Except.bind] at h ⊢
+        cases h; rfl
+      | ok op =>
+        simp only [hop, bind, Except.bind] at h ⊢
+        cases hadd : Node.addAt t.completed [] revPath.reverse op (t.root.getD emptyAct) with
+        | ok r => simp [hadd, pure, Except.pure] at h
+        | error e2 =>
+          simp only [hadd] at h
+          cases h
+          have := addAt_error op t.completed e he revPath.reverse [] t.root ft hinv.sub hadd
+          simp only [List.nil_append] at this
+          simp only [this]
+  | none =>
+    by_cases h1 : m.level = [1]
+    · simp [Task.add, hat, h1, pure, Except.pure] at h
+    · cases hrev : m.level.reverse with
+      | nil => simp [Task.add, hat, h1, hrev, pure, Except.pure] at h
+      | cons k revPath =>
+        simp only [Task.add, hat, h1, if_false, hrev, bind, Except.bind] at h
+        cases hadd : Node.addAt t.completed [] revPath.reverse (.addMsg k m) (t.root.getD emptyAct) with
+        | ok r => simp [hadd, pure, Except.pure] at h
+        | error e2 =>
+          simp only [hadd] at h
+          cases h
+          have := addAt_error (.addMsg k m) t.completed e he revPath.reverse [] t.root ft hinv.sub hadd
+          simp only [List.nil_append] at this
+          simp only [FTask.add, hat, h1, if_false, hrev, bind, Except.bind, this]
+
 /-! ## Sequences of additions -/
 
 def Task.addAll (t : Task) : List PMsg → Except Err Task
